@@ -75,7 +75,9 @@ def api_names():
     import pysnark.branching as br
     import pysnark.array as ar
     import pysnark.linalg as la
-    return dict(PrivVal=rt.PrivVal, PubVal=rt.PubVal, ConstVal=rt.ConstVal, LinComb=rt.LinComb,
+    import pysnark.pack as pk
+    return dict(PackBool=pk.PackBool, PackIntMod=pk.PackIntMod, PackList=pk.PackList, PackRepeat=pk.PackRepeat,
+                PrivVal=rt.PrivVal, PubVal=rt.PubVal, ConstVal=rt.ConstVal, LinComb=rt.LinComb,
                 guarded=rt.guarded, PrivValBool=bo.PrivValBool, PubValBool=bo.PubValBool, LinCombBool=bo.LinCombBool,
                 PrivValFxp=fx.PrivValFxp, PubValFxp=fx.PubValFxp, LinCombFxp=fx.LinCombFxp,
                 if_then_else=br.if_then_else, Array=ar.Array, lin_comb=la.lin_comb,
